@@ -322,7 +322,11 @@ func c01ExtractCalcBranch(repo string) (string, string, error) {
 	t.calls["<branch>.invoke"] = c01Call{sym: "branch_invoke", recv: true, result: "keys", fails: true}
 	t.calls["<branch>.collect"] = c01Call{sym: "branch_collect", recv: true, result: "keys", fails: true}
 	t.calls["cm.reportBranch"] = c01Call{sym: "report_branch", state: "cm", fails: true}
-	code, err := t.function(fn.Body.List, "    ")
+	inl, err := c01NewInl(repo, []string{"compose", "graph_run.go"}, "runner", recv, fn, func(c *ast.CallExpr) bool { _, _, ok := t.callOf(c); return ok })
+	if err != nil {
+		return "", "", err
+	}
+	code, err := t.function(inl.body(fn.Body.List), "    ")
 	if err != nil {
 		return "", "", err
 	}
